@@ -148,6 +148,8 @@ where
         }
         for filter in filters {
             data = t!(decode(&data, filter), filter);
+            #[cfg(feature="verif")]
+            crate::verif::add_decoded(data.len());
         }
         Ok(data.into())
     }
@@ -310,6 +312,8 @@ where
         let key = r.get_inner();
         self.storage.log.log_get(key);
         
+        #[cfg(feature="verif")]
+        crate::verif::point(crate::verif::GET_ENTER);
         {
             debug!("get {key:?} as {}", std::any::type_name::<T>());
             let mut chain = self.chain.lock().unwrap();
@@ -318,7 +322,11 @@ where
             }
             chain.push(key);
         }
+        #[cfg(feature="verif")]
+        crate::verif::point(crate::verif::GET_PUSHED);
         let _defer = Defer(|| {
+            #[cfg(feature="verif")]
+            crate::verif::point(crate::verif::GET_POP);
             let mut chain = self.chain.lock().unwrap();
             assert_eq!(chain.pop(), Some(key));
         });
@@ -333,6 +341,8 @@ where
                 }
             }
         });
+        #[cfg(feature="verif")]
+        crate::verif::point(crate::verif::GET_COMPUTED);
         match res {
             Ok(any) => {
                 match any.downcast() {
